@@ -11,6 +11,17 @@ Line-protocol driver of the C05 model.
         call after <k> bytes of a write.  Prints the system calls performed, the
         resulting directory and the lookups on it.
 
+  flaky <cs> <ts> <idhex> <datahex> <data2hex> <files> <nsteps> <k>
+        like `put`, but the source yields <data2> on the second pass (`nextOpF`).
+  hist <cs> <op>;<op>;…
+        a history on one directory (several contents per action id, mtimes, `used`, Trim):
+        p:<idhex>:<datahex>:<ts>  complete solo `put`        -> put=<pc>:<outfile read>
+        t:<name>:<len>  truncate at rest   r:<name>  remove  -> ok
+        a:<name>:<age>  set the mtime to now-<age> seconds    -> ok
+        l:<idhex>       the three lookups (with their `used` bumps) -> get=… getfile=… getbytes=…
+        trim            one complete `Trim` (stat+remove of every file) -> files=<listing>
+        results are joined by `|`.
+
 <files> = `-` or `name:hex;name:hex;…`, name = `a<idhex>` / `d<outhex>`, hex `-` = empty.
 -/
 namespace Verif.C05
@@ -156,6 +167,102 @@ def showPC : PC → String
   | .writeD off => s!"writeD{off}" | .lastD => "lastD" | .idxOpen => "idxOpen"
   | .idxWrite => "idxWrite" | .idxTrunc => "idxTrunc" | .done => "done" | .dead => "dead"
 
+/-- what the caller of `Put` reads when it opens `OutputFile(out)` (lintcmd/runner) -/
+def showOutFile (h : Bytes → Bytes) (fs : FS) (out : Bytes) : String :=
+  match readFile fs out with
+  | none => "outfile=openerr"
+  | some b => s!"outfile=hit:{showHex (h b)}:{b.length}"
+
+def memoH2 (d1 o1 d2 o2 : Bytes) : Bytes → Bytes :=
+  fun d => if d = d1 then o1 else if d = d2 then o2 else sha256 d
+
+/-- run the flaky-source put for at most `fuel` steps, collecting the system calls -/
+def runPutF (h : Bytes → Bytes) (cs : Nat) (data2 : Bytes) : Nat → FS × Proc → List String → (FS × Proc) × List String
+  | 0, x, acc => (x, acc.reverse)
+  | fuel + 1, x, acc =>
+    if x.2.pc = .done ∨ x.2.pc = .dead then (x, acc.reverse) else
+    let op := (nextOpF h cs x.1 x.2 data2).1
+    let acc' := match showOp op with | some t => t :: acc | none => acc
+    runPutF h cs data2 fuel (soloStepF h cs data2 x) acc'
+
+/-! ### histories (several contents per id, mtimes, `used`, Trim) -/
+
+inductive HOp where
+  | put (id data : Bytes) (ts : Nat)
+  | trunc (n : Name) (len : Nat)
+  | rm (n : Name)
+  | age (n : Name) (age : Nat)
+  | look (id : Bytes)
+  | trim
+
+def parseHOp (s : String) : Option HOp :=
+  match s.splitOn ":" with
+  | ["p", id, data, ts] => do
+    let id ← parseHexBytes id
+    let data ← parseHexBytes data
+    let ts ← parseNat ts
+    pure (.put id data ts)
+  | ["t", n, len] => do
+    let n ← parseName n
+    let len ← parseNat len
+    pure (.trunc n len)
+  | ["r", n] => (parseName n).map .rm
+  | ["a", n, age] => do
+    let n ← parseName n
+    let age ← parseNat age
+    pure (.age n age)
+  | ["l", id] => (parseHexBytes id).map .look
+  | ["trim"] => some .trim
+  | _ => none
+
+/-- sha256 with the contents of the history remembered -/
+def memoList (m : List (Bytes × Bytes)) : Bytes → Bytes :=
+  fun d => match m.find? (·.1 = d) with
+    | some (_, o) => o
+    | none => sha256 d
+
+def histNames (ops : List HOp) (h : Bytes → Bytes) : List Name :=
+  (ops.flatMap fun
+    | .put id data _ => [Name.D (h data), Name.A id]
+    | .trunc n _ => [n]
+    | .rm n => [n]
+    | .age n _ => [n]
+    | .look id => [Name.A id]
+    | .trim => []).eraseDups
+
+def runHist (cs : Nat) (ops : List HOp) : String :=
+  let memo := (ops.filterMap fun | .put _ data _ => some data | _ => none).eraseDups.map fun d => (d, sha256 d)
+  let h := memoList memo
+  let names := histNames ops h
+  let s0 : TSys := { sys := { fs := FS.empty, procs := [] }, mt := fun _ => 0, now := 2000000000, trimmers := [] }
+  let (_, outs) := ops.foldl (init := (s0, ([] : List String))) fun (s, outs) op =>
+    match op with
+    | .put id data ts =>
+      let i := s.sys.procs.length
+      -- the caller then takes `OutputFile(out)` (lintcmd/runner.writeCacheReader): `used` on the data file
+      let evs : List EvT := (.base (.spawn id data ts) :: List.replicate (putBound data.length) (.base (.step i))) ++ [.used (.D (h data))]
+      let s' := runT h cs s evs
+      let pc := match s'.sys.procs[i]? with | some p => showPC p.pc | none => "rejected"
+      let rd := match readFile s'.sys.fs (h data) with
+        | none => "openerr"
+        | some b => s!"hit:{showHex (h b)}:{b.length}"
+      (s', s!"put={pc}:{rd}" :: outs)
+    | .trunc n len => (stepT h cs s (.base (.truncate n len)), "ok" :: outs)
+    | .rm n => (stepT h cs s (.base (.unlink n)), "ok" :: outs)
+    | .age n age => (stepT h cs s (.touch n (s.now - age)), "ok" :: outs)
+    | .look id =>
+      let line := showLook h s.sys.fs id
+      let s' := match get s.sys.fs id with
+        | none => s
+        | some (out, _) => runT h cs s [.used (.A id), .used (.D out)]
+      (s', line :: outs)
+    | .trim =>
+      let j := s.trimmers.length
+      let evs : List EvT := .trimBegin :: names.flatMap fun n => [.trimStat j n, .trimRemove j]
+      let s' := runT h cs s evs
+      (s', s!"files={showFiles h s'.sys.fs names}" :: outs)
+  "|".intercalate outs.reverse
+
 def step (line : String) : String :=
   match tokens line with
   | ["sha", d] =>
@@ -183,8 +290,36 @@ def step (line : String) : String :=
         let names := fl.map (·.1) ++ [Name.D out, Name.A id]
         let pc := match s2.procs[0]? with | some p => showPC p.pc | none => "?"
         let opss := if ops = [] then "-" else ",".intercalate ops
-        s!"ops={opss} pc={pc} files={showFiles h s2.fs names} {showLook h s2.fs id}"
+        s!"ops={opss} pc={pc} files={showFiles h s2.fs names} {showLook h s2.fs id} {showOutFile h s2.fs out}"
     | _, _, _, _, _, _ => "bad-op"
+  | ["flaky", cs, ts, id, data, data2, files, nsteps, k] =>
+    match parseNat cs, parseNat ts, parseHexBytes id, parseHexBytes data, parseHexBytes data2, parseFiles files, parseNat nsteps with
+    | some cs, some ts, some id, some data, some data2, some fl, some nsteps =>
+      let kk : Option (Option Nat) := if k = "-" then some none else (parseNat k).map some
+      match kk with
+      | none => "bad-op"
+      | some kk =>
+        if data2.length ≠ data.length then "bad-op" else
+        let out := sha256 data
+        let h := memoH2 data out data2 (sha256 data2)
+        let p0 : Proc := { id := id, data := data, ts := ts, pc := .statD, orph := false }
+        let (x1, ops) := runPutF h cs data2 nsteps (fsOf fl, p0) []
+        let fs2 := match kk with
+          | none => x1.1
+          | some k =>
+            if x1.2.pc = .done ∨ x1.2.pc = .dead then x1.1 else
+            match (nextOpF h cs x1.1 x1.2 data2).1 with
+            | .write n off ch => pwrite x1.1 n off (ch.take k)
+            | _ => x1.1
+        let pc := match kk with | none => showPC x1.2.pc | some _ => "dead"
+        let names := fl.map (·.1) ++ [Name.D out, Name.A id]
+        let opss := if ops = [] then "-" else ",".intercalate ops
+        s!"ops={opss} pc={pc} files={showFiles h fs2 names} {showLook h fs2 id} {showOutFile h fs2 out}"
+    | _, _, _, _, _, _, _ => "bad-op"
+  | ["hist", cs, ops] =>
+    match parseNat cs, (ops.splitOn ";").mapM parseHOp with
+    | some cs, some hops => runHist cs hops
+    | _, _ => "bad-op"
   | _ => "bad-op"
 
 end Verif.C05
